@@ -41,6 +41,9 @@ func shutdown(en *tl.Engine) {
 				en.PushAfterCancelRoom(c[0], c[1], v)
 			}
 		}
+		en.TimeoutRaces(1, 1, 1)
+		en.TimeoutRaces(2, 1, 1)
+		en.RequireTimeoutRace()
 		// back-to-back New/push/cancel/Wait on a single P, ~50 repetitions with several lanes
 		for i := 0; i < 51; i++ {
 			en.BackToBack(2+i%3, 1+(i/3)%3, i%3, i)
@@ -52,7 +55,11 @@ func stress(en *tl.Engine) {
 	small, big := reps(en, 300, 4000), reps(en, 30, 500)
 	for i := 0; i < small; i++ {
 		n, q := 1+en.Rng.Intn(3), en.Rng.Intn(3)
-		en.Stress(n, q, tl.StressOpt{PanicPct: 5, Observers: 0, CancelMode: 2, Kinds: true}, i)
+		mode := 2
+		if i%5 == 0 {
+			mode = 3 // a real context.WithDeadline expiring mid-run
+		}
+		en.Stress(n, q, tl.StressOpt{PanicPct: 5, Observers: 0, CancelMode: mode, Kinds: true}, i)
 	}
 	for i := 0; i < big; i++ {
 		n, q := 1+en.Rng.Intn(4), en.Rng.Intn(4)
